@@ -372,6 +372,10 @@ def leaves(tier):
         t.append(["Gridding", [2, 2, 3], COORD2["dup"], kern, 2, prm])
         t.append(["Interpolate", [2, 2, 2], COORD3["frac"], kern, 2, prm])
         t.append(["Gridding", [2, 2, 3], COORD3["tie"], kern, [2, 1, 3], prm])
+    q += [["Interpolate", [3, 4], [[0.6, 0.2], [-1.25, 0.5], [1.75, -0.3]], "kaiser_bessel", [3, 2], 2.34],
+          ["Gridding", [4, 3], [[0.6, 0.2], [-1.25, 0.5], [1.75, -0.3]], "spline", [1.5, 3], 1],
+          ["Interpolate", [2, 3, 3], [[0.6, 1.75, -0.7], [-0.3, 0.55, 1.6]], "spline", [3, 1.5, 3], 2],
+          ["NUFFT", [3, 4], [[0.6, 0.2], [-1.25, 0.5]], 2, 3]]
     q += [["Interpolate", [3, 3], COORD2["tie"], "spline", [2, 3], [1, 2]], ["Gridding", [2, 3, 2], COORD2["frac"], "spline", 2, 1]]
     q += [["NUFFT", [4], COORD1["frac"], 1.25, 4], ["NUFFTAdjoint", [3], COORD1["half"], 2, 3], ["NUFFT", [2, 3], COORD2["frac"], 1.25, 4]]
     t += [["NUFFT", [3], COORD1["far"], 1.25, 3], ["NUFFTAdjoint", [4], COORD1["int"], 1.25, 4], ["NUFFT", [2, 4], COORD1["dup"], 2, 4],
